@@ -1,3 +1,5 @@
+//go:build verif
+
 package streams
 
 import (
@@ -6,7 +8,9 @@ import (
 	"sort"
 	"strings"
 
+	"k8s.io/apimachinery/pkg/util/validation/field"
 	"k8s.io/pod-security-admission/api"
+	"psaverif/internal/adm"
 	"psaverif/internal/cq"
 	"psaverif/internal/enc"
 )
@@ -95,13 +99,34 @@ func labelsKey(m map[string]string) string {
 	return b.String()
 }
 
+// resolveViaAdmission resolves labels through (*Admission).PolicyToEvaluate, the path the
+// admission controller itself uses, with d as the configured defaults.
+func resolveViaAdmission(ls map[string]string, d api.Policy) (api.Policy, field.ErrorList, bool) {
+	cfg := adm.CfgSpec{Defaults: d}
+	a, err := adm.NewAdmission(&cfg, adm.MarkerEvaluator{}, adm.NullMetrics{}, nil, nil)
+	if err != nil {
+		return api.Policy{}, nil, false
+	}
+	p, errs := a.PolicyToEvaluate(ls)
+	return p, errs, true
+}
+
+var polCaseCounter int
+
 func polCase(in *cq.Interner, ls map[string]string, d api.Policy) cq.Case {
 	var lsArg map[string]string = ls
 	p, errs := api.PolicyToEvaluate(lsArg, d)
+	polCaseCounter++
+	via := "api.PolicyToEvaluate"
+	if polCaseCounter%2 == 0 {
+		if p2, e2, ok := resolveViaAdmission(lsArg, d); ok {
+			p, errs, via = p2, e2, "Admission.PolicyToEvaluate"
+		}
+	}
 	dTerm, _ := enc.Policy(d)
 	key := "pol|" + labelsKey(ls) + "|" + d.String()
-	sample := map[string]interface{}{"kind": "PolicyToEvaluate", "labels": ls, "defaults": d.String(), "observed_policy": p.String(), "observed_errs": fmt.Sprint(errs)}
-	tags := []string{"kind:policy", fmt.Sprintf("labels:%d", len(ls)), fmt.Sprintf("errs:%d", len(errs))}
+	sample := map[string]interface{}{"kind": via, "labels": ls, "defaults": d.String(), "observed_policy": p.String(), "observed_errs": fmt.Sprint(errs)}
+	tags := []string{"kind:policy", "via:" + via, fmt.Sprintf("labels:%d", len(ls)), fmt.Sprintf("errs:%d", len(errs))}
 	pTerm, ok1 := enc.Policy(p)
 	eTerm, ok2 := enc.FieldErrs(in, errs)
 	var term string
